@@ -155,16 +155,16 @@ def _cusum_agg(X, s, k, e):
     return float(np.sqrt(np.maximum(v, 0.0)).sum())
 
 
-def _cs_agg(costf):
+def _cs_agg(costf, param=None):
     def f(X, s, k, e):
-        v = oracles.change_score(costf, X, s, k, e)
+        v = oracles.change_score(costf, X, s, k, e, param)
         return None if v is None else float(np.sum(v))
     return f
 
 
-def _la_agg(costf):
+def _la_agg(costf, param=None):
     def f(X, s, a, b, e):
-        v = oracles.local_anomaly_score(costf, X, s, a, b, e)
+        v = oracles.local_anomaly_score(costf, X, s, a, b, e, param)
         return None if v is None else float(np.sum(v))
     return f
 
@@ -180,6 +180,9 @@ def builtin_change_scores(p):
         "GaussianVarCost": (lambda: GaussianVarCost(), 2, _cs_agg(oracles.gaussian_var_cost)),
         "ChangeScore(GaussianVarCost)": (lambda: ChangeScore(GaussianVarCost()), 2, _cs_agg(oracles.gaussian_var_cost)),
         "GaussianCovCost": (lambda: GaussianCovCost(), p + 1, _cs_agg(oracles.gaussian_cov_cost)),
+        # costs at a FIXED parameter (their change score is identically 0 up to rounding: the cost is additive over rows)
+        "L2Cost(0.5)": (lambda: L2Cost(param=0.5), 1, _cs_agg(oracles.l2_cost, 0.5)),
+        "GaussianVarCost((0.5,2.0))": (lambda: GaussianVarCost(param=(0.5, 2.0)), 2, _cs_agg(oracles.gaussian_var_cost, (0.5, 2.0))),
     }
 
 
@@ -192,6 +195,10 @@ def builtin_local_scores(p):
         "GaussianVarCost": (lambda: GaussianVarCost(), 2, _la_agg(oracles.gaussian_var_cost)),
         "LocalAnomalyScore(GaussianVarCost)": (lambda: LocalAnomalyScore(GaussianVarCost()), 2, _la_agg(oracles.gaussian_var_cost)),
         "GaussianCovCost": (lambda: GaussianCovCost(), p + 1, _la_agg(oracles.gaussian_cov_cost)),
+        # costs at a FIXED parameter: the local anomaly score C(s,e) - C(a,b) - C(pooled surrounding rows) is identically 0 up to rounding
+        "L2Cost(0.5)": (lambda: L2Cost(param=0.5), 1, _la_agg(oracles.l2_cost, 0.5)),
+        "LocalAnomalyScore(L2Cost(0.5))": (lambda: LocalAnomalyScore(L2Cost(param=0.5)), 1, _la_agg(oracles.l2_cost, 0.5)),
+        "GaussianVarCost((0.5,2.0))": (lambda: GaussianVarCost(param=(0.5, 2.0)), 2, _la_agg(oracles.gaussian_var_cost, (0.5, 2.0))),
     }
 
 
@@ -228,7 +235,15 @@ def build_scorer(spec, X, k, n_table=None):
         The statements of C07-C09 take the scorer's value as given (its relation to the costs is C06/C01); a value is only
         reported as wrong when it differs from the direct definition AND from this."""
         if not fresh:
-            fresh.append(conv(make()).fit(X))
+            # composed explicitly (ChangeScore(cost) / LocalAnomalyScore(cost)), not through the converter the detector itself uses:
+            # a second opinion that shares the converter would share its defects
+            from skchange.anomaly_scores import LocalAnomalyScore
+            from skchange.change_scores import ChangeScore
+            from skchange.costs.base import BaseCost
+            o = make()
+            if isinstance(o, BaseCost):
+                o = ChangeScore(o) if k == 3 else LocalAnomalyScore(o)
+            fresh.append(o.fit(X))
         try:
             return float(np.sum(fresh[0].evaluate(np.array([cut], dtype=np.int64))))
         except Exception:      # noqa: BLE001
